@@ -525,15 +525,19 @@ class Ctx:
     def note(self, k, v):
         self.notes[k] = v
 
-    def fail(self, label, detail='', **sig):
-        """a violation that needs no solver (IDs / metadata / exception mismatch on this path)"""
+    def fail(self, label, detail='', _values=None, **sig):
+        """a violation that needs no solver (IDs / metadata / exception mismatch on this path);
+        `_values`: witness values decided by another engine (direct FP / string query) for named variables"""
         if self.mode == 'conc':
             self.conc_failures.append((label, detail))
             return
         m = None
         if self._check() == z3.sat:
             m = self._last.model()
+        n0 = len(self.findings)
         self._record(label, m, detail, sig)
+        if _values and len(self.findings) > n0:
+            self.findings[-1]['values'].update(_values)
 
     def prove(self, label, claim, detail='', **sig):
         if self.mode == 'conc':
@@ -693,7 +697,7 @@ def strvar(name, domain=None, maxlen=6): return CTX.strvar(name, domain, maxlen)
 def choice(n, label=''): return CTX.choice(n, label)
 def assume(c): return CTX.assume(c)
 def prove(label, claim, detail='', **sig): return CTX.prove(label, claim, detail, **sig)
-def fail(label, detail='', **sig): return CTX.fail(label, detail, **sig)
+def fail(label, detail='', _values=None, **sig): return CTX.fail(label, detail, _values=_values, **sig)
 def note(k, v): return CTX.note(k, v)
 def mode(): return CTX.mode
 def flag(label=''): return bool(CTX.choice(2, label))
